@@ -200,8 +200,16 @@ def audit_props(pid):
     return res
 
 
+SECTION_ONLY = re.compile(r"\b(Hypothesis|Hypotheses|Variable|Variables)\b")
+ALWAYS_FORBIDDEN = re.compile(
+    r"\b(Admitted|admit|Axiom|Axioms|Parameter|Parameters|Conjecture)\b"
+    r"|Unset\s+Guard|bypass_check|type-in-type|impredicative-set|Admit Obligations|Unset Universe Checking"
+    r"|Unset Positivity")
+
+
 def forbidden_scan():
-    """Greps the Coq development for forbidden declarations / flags."""
+    """Greps the Coq development for forbidden declarations / flags.  Variable / Hypothesis are allowed
+    inside a Section only (they are discharged at End)."""
     hits = []
     for root, _, files in os.walk(COQ):
         for fn in files:
@@ -209,10 +217,18 @@ def forbidden_scan():
                 continue
             path = os.path.join(root, fn)
             txt = open(path).read()
-            # strip comments
             txt2 = re.sub(r"\(\*.*?\*\)", "", txt, flags=re.S)
-            for m in FORBIDDEN.finditer(txt2):
+            for m in ALWAYS_FORBIDDEN.finditer(txt2):
                 hits.append("%s: %s" % (os.path.relpath(path, VERIF), m.group(0)))
+            stack = []
+            for line in txt2.splitlines():
+                ms = re.match(r"\s*(Section|Module)\s+(\w+)", line)
+                if ms and not re.match(r"\s*Module\s+Type", line):
+                    stack.append(ms.group(1))
+                if re.match(r"\s*End\s+\w+\s*\.", line) and stack:
+                    stack.pop()
+                if SECTION_ONLY.search(line) and "Section" not in stack:
+                    hits.append("%s: %s outside a section" % (os.path.relpath(path, VERIF), SECTION_ONLY.search(line).group(0)))
     return hits
 
 
